@@ -225,6 +225,14 @@ func (r *rewriter) rewriteFile() {
 					r.count++
 				}
 			}
+			// sync/atomic: every type and function becomes its scheduling-point twin (an unknown
+			// name fails to compile against vsched, loudly)
+			if id, ok := n.X.(*ast.Ident); ok {
+				if pn, ok := r.info.Uses[id].(*types.PkgName); ok && pn.Imported().Path() == "sync/atomic" {
+					c.Replace(vs("Atomic" + n.Sel.Name))
+					r.count++
+				}
+			}
 		}
 		return true
 	}
@@ -238,6 +246,9 @@ func (r *rewriter) rewriteFile() {
 		if !usesPkgIdent(r.file, p) {
 			astutil.DeleteImport(r.fset, r.file, p)
 		}
+	}
+	if !usesPkgIdent(r.file, "atomic") {
+		astutil.DeleteImport(r.fset, r.file, "sync/atomic")
 	}
 }
 
